@@ -37,10 +37,16 @@ class BlockError(Exception):
 
 
 class HSys:
-    def __init__(self, L, datalen, ukind):
+    def __init__(self, L, datalen, ukind, salt=None):
         self.L = L
         self.rec = Recorder()
+        self.salt, self.ntool, self.stride, self.skip = salt, 0, 1, 0
         items = [Item(1, p + 1, 1) for p in range(datalen)]
+        self.none_pos = 0
+        if ukind == "clsnone":       # a class-based iterator one of whose items is the object None (an item like any other)
+            self.none_pos = 2 if datalen % 2 == 0 else 1
+            if datalen:
+                items[self.none_pos - 1] = None
         if ukind == "agen":
             self.usrc = AgenSource(self.rec, 1, items)
             self.U = self.usrc.gen
@@ -51,7 +57,7 @@ class HSys:
             self.U = self.usrc
         else:
             cls = {"send": SendSource, "throwonly": ThrowOnlySource, "cls": ClsSource, "noclose": ClsSourceNoClose,
-                   "iterable": ClsSource}[ukind]
+                   "iterable": ClsSource, "clsnone": ClsSource}[ukind]
             self.usrc = cls(self.rec, 1, items)
             self.U = self.usrc
         self.ukind = ukind
@@ -86,7 +92,88 @@ class HSys:
             return 1   # an async generator closed before it ever ran: its body cannot notice
         return getattr(u, "closes", 0)
 
-    def apply(self, a):
+    def pos_of(self, x):
+        """Position of what a handle or tool handed out (-1: not an item of the underlying iterator)."""
+        if isinstance(x, tuple) and x:
+            x = x[0]
+        if isinstance(x, Item):
+            return x.p
+        if x is None and self.none_pos:
+            return self.none_pos
+        return -1
+
+    def tool(self, h, j, which, k):
+        """One concrete tool application with the abstract effect of the model's Tool(h, j, which): "islice" asks for j
+        items and closes (j pulls, or all there is and the end); "zip" sees j items and looks at one more.  Which
+        concrete library tool stands for it rotates with the replay (k: how many items the model says are consumed)."""
+        L = self.L
+        self.stride, self.skip = 1, 0
+        if self.salt is None or j == 0:     # (a tool nobody ever asks for an item never gets to run: closing it closes nothing)
+            v = 0
+        else:
+            v = (self.salt + self.ntool) % (7 if which == "islice" else 4)
+        self.ntool += 1
+
+        async def take(it, n):
+            out = []
+            try:
+                for _ in range(n):
+                    try:
+                        out.append(await it.__anext__())
+                    except StopAsyncIteration:
+                        break
+            finally:
+                await it.aclose()
+            return out
+
+        if which == "islice":
+            if v == 1:
+                return L.list(L.islice(h, 0, j, 1))
+            if v == 2:
+                return take(L.islice(h, 0, None, 1), j)
+            if v == 3 and j % 2 == 1 and k == j:      # an open-ended slice with a step, closed by its consumer after (j+1)/2 items
+                self.stride = 2
+                return take(L.islice(h, 0, None, 2), (j + 1) // 2)
+            if v == 4:
+                return take(L.zip_longest(h, []), j)
+            if v == 6 and j >= 2:                      # a slice with a start: the first items are consumed, not handed out
+                self.skip = min(2, j - 1)
+                return L.list(L.islice(h, self.skip, j))
+            if v == 5:
+                async def second():
+                    return [x[1] for x in await take(L.enumerate(h), j)]
+                return second()
+            return L.list(L.islice(h, j))
+        seen = {"n": 0}
+
+        async def first_j(_x):
+            seen["n"] += 1
+            return seen["n"] <= j
+
+        async def first_j_then_fail(_x):
+            seen["n"] += 1
+            if seen["n"] > j:
+                raise BlockError()
+            return True
+
+        async def failing(tool_):
+            out = []
+            try:
+                async for x in tool_:
+                    out.append(x)
+            except BlockError:
+                pass
+            return out
+
+        if v == 1:
+            return L.list(L.takewhile(first_j, h))
+        if v == 2:
+            return failing(L.filter(first_j_then_fail, h))
+        if v == 3:
+            return failing(L.takewhile(first_j_then_fail, h))
+        return L.list(L.zip(h, range(j)))
+
+    def apply(self, a, k=None):
         op = a[0]
         L = self.L
         if op == "borrow":
@@ -118,13 +205,10 @@ class HSys:
             return ("ok",) if r[0] == "done" else ("raised", r[1])
         if op == "tool":
             h, j, which = self.h[a[1]], a[2], a[3]
-            if which == "islice":
-                r = self.run(L.list(L.islice(h, j)))
-            else:
-                r = self.run(L.list(L.zip(h, range(j))))
+            r = self.run(self.tool(h, j, which, k))
             if r[0] != "done":
                 return ("raised", r[1])
-            got = [x.p if isinstance(x, Item) else x[0].p for x in r[1]]
+            got = [self.pos_of(x) for x in r[1]]
             return ("items", got)
         if op == "send":
             h = self.h[a[1]]
@@ -142,10 +226,9 @@ class HSys:
             return ("ok", bool(r[1]))
         raise ValueError(op)
 
-    @staticmethod
-    def _item(r):
+    def _item(self, r):
         if r[0] == "done":
-            return ("item", r[1].p if isinstance(r[1], Item) else -1)
+            return ("item", self.pos_of(r[1]))
         if isinstance(r[1], StopAsyncIteration):
             return ("item", 0)
         return ("raised", r[1])
@@ -173,17 +256,21 @@ INVARIANT InOrder
 
 # (DataLen, MaxHandles, MaxOps, scope, borrow, usend, underlying kinds)
 TIERS = {
-    "C07": {"quick": [(2, 2, 4, False, True, False, ["cls", "agen", "throwonly", "noclose"]), (2, 1, 4, False, True, True, ["send"])],
-            "thorough": [(3, 3, 5, False, True, False, ["cls", "agen", "throwonly", "noclose"]), (3, 2, 5, False, True, True, ["send"]), (2, 2, 6, False, True, False, ["cls"])]},
-    "C08": {"quick": [(2, 2, 4, True, False, False, ["cls", "agen", "iterable", "sync", "noclose"]), (2, 2, 4, True, True, False, ["cls"])],
-            "thorough": [(3, 3, 5, True, False, False, ["cls", "agen", "iterable", "sync", "noclose"]), (3, 3, 5, True, True, False, ["cls", "agen"]), (2, 2, 6, True, True, True, ["send"])]},
+    "C07": {"quick": [(2, 2, 4, False, True, False, ["cls", "agen", "throwonly", "noclose", "clsnone"]), (2, 1, 4, False, True, True, ["send"]), (3, 1, 3, False, True, False, ["clsnone", "agen"])],
+            "thorough": [(3, 3, 5, False, True, False, ["cls", "agen", "throwonly", "noclose", "clsnone"]), (3, 2, 5, False, True, True, ["send"]), (2, 2, 6, False, True, False, ["cls"])]},
+    "C08": {"quick": [(2, 2, 4, True, False, False, ["cls", "agen", "iterable", "sync", "noclose", "clsnone"]), (2, 2, 4, True, True, False, ["cls"]), (3, 1, 3, True, False, False, ["clsnone", "agen"])],
+            "thorough": [(3, 3, 5, True, False, False, ["cls", "agen", "iterable", "sync", "noclose", "clsnone"]), (3, 3, 5, True, True, False, ["cls", "agen"]), (2, 2, 6, True, True, True, ["send"])]},
 }
 
 
+NVARIANTS = 7     # concrete tools standing for one Tool step of the model (HSys.tool)
+
+
 def replay_path(args):
-    prop, datalen, ukind, path = args
+    prop, datalen, ukind, path = args[:4]
+    salt_ = args[4] if len(args) > 4 else len(path) + sum(e["a"][1] for e in path)
     L = tm.load_lib()
-    s = HSys(L, datalen, ukind)
+    s = HSys(L, datalen, ukind, salt=salt_)
     name = "borrow" if prop == "C07" else "scoped_iter"
 
     def bad(cls, j, detail):
@@ -208,7 +295,7 @@ def replay_path(args):
         if ukind == "sync" and a[0] == "next" and a[1] == 0 and e["f"]["uc"] >= 1:
             continue      # the model's underlying is closed; a synchronous iterator cannot be, its owner may go on using it
         try:
-            r = s.apply(a)
+            r = s.apply(a, k=(e["t"]["up"] - e["f"]["up"]) if a[0] == "tool" else None)
         except Exception as ex:  # noqa: BLE001
             return bad("operation-raises-" + type(ex).__name__, j, {"observed": repr(ex)})
         if r[0] == "raised":
@@ -221,7 +308,7 @@ def replay_path(args):
                 return bad(cls, j, {"expected": a[2], "observed": r, "op": a})
         if a[0] == "tool":
             k = e["t"]["up"] - e["f"]["up"]
-            exp_items = list(range(e["f"]["up"] + 1, e["f"]["up"] + 1 + min(a[2], k)))
+            exp_items = list(range(e["f"]["up"] + 1 + s.skip, e["f"]["up"] + 1 + min(a[2], k), s.stride))
             if r[1] != exp_items:
                 return bad("tool-sees-wrong-items", j, {"expected": exp_items, "observed": r[1], "op": a})
         exp_c = {"up": exp_t["up"], "us": exp_t["us"], "uc": exp_t["uc"]}
@@ -307,7 +394,7 @@ def replay_path(args):
                     r = ("raised", ex)
             else:
                 r = s.run(s.U.__anext__())
-            got = r[1].p if r[0] == "done" else 0
+            got = s.pos_of(r[1]) if r[0] == "done" else 0
             if want <= len(s.usrc.items) and got != want:
                 return bad("underlying-does-not-continue", len(path), {"expected": want, "observed": repr(r)})
     if not s.rec.acct.ok():
@@ -520,7 +607,9 @@ def check(prop, tier, seed, into=None):
         edges = read_ndjson(res["files"]["edges.ndjson"])
         paths = build_paths(edges, lambda f: f["n"] == 0)
         tot["paths"] += len(paths)
-        jobs = [(prop, datalen, uk, p) for p in paths for uk in ukinds]
+        # a history with a Tool step is replayed once per concrete tool that can stand for it
+        jobs = [(prop, datalen, uk, p, sv) for p in paths for uk in ukinds
+                for sv in (range(NVARIANTS) if any(e["a"][0] == "tool" for e in p) and (tier != "thorough" or len(p) <= 4) else [len(p)])]
         with mp.Pool(min(16, os.cpu_count() or 4)) as pool:
             for out in pool.imap_unordered(replay_path, jobs, chunksize=max(1, len(jobs) // 256)):
                 for sig, d in out:
